@@ -1152,3 +1152,13 @@ func (f *Facts) MayRun() map[string]bool {
 	}
 	return out
 }
+
+// SortedKeys returns the sorted keys of a map.
+func SortedKeys[V any](m map[string]V) []string {
+	out := make([]string, 0, len(m))
+	for k := range m {
+		out = append(out, k)
+	}
+	sort.Strings(out)
+	return out
+}
